@@ -44,6 +44,7 @@ type Config struct {
 	ConcMax     int // max distinct values in a concretisation
 	TimeoutMs   int
 	Abstract    map[string]string // function full name -> UF symbol
+	Summarize   map[string]bool   // functions replaced by pure-callee summaries
 	Concrete    map[string]string // replay-mode concrete inputs (co-simulation)
 	Deadline    time.Time
 	AllocFactor int // C07: allocation bound factor (0 = off)
@@ -99,6 +100,8 @@ type Exec struct {
 	decOrigin   map[**sym.Term]decInfo
 	b64Origin   map[string][]*sym.Term
 	guardDepth  int
+	sums        map[*ssa.Function]*fnSummary
+	guard       []*sym.Term
 	udpSocks    map[*Object]*udpSock
 	udpNextPort int
 	syncMaps    map[*Object]map[int]*MapObj
